@@ -675,3 +675,13 @@ def _c16_tables(tier="quick", seed=0):
 
 _c16_before_tables = EXTRA_CHECKS["C16"]
 EXTRA_CHECKS["C16"] = (lambda tier="quick", seed=0: _c16_before_tables(tier, seed) + _c16_tables(tier, seed))
+
+
+# ---- C08: a copied / unpickled model has dropped its execution order and program cache (Model.unlink); Model.process rebuilds both before
+# anything else runs
+def _c08_process(tier="quick", seed=0):
+    return flow.self_call_sequence("model:Model.process", "top", ["_set_exec_order", "_update_program_cache"], "the caches a copy drops are rebuilt first (the loops follow inside if / while blocks)")
+
+
+_c08_before_process = EXTRA_CHECKS["C08"]
+EXTRA_CHECKS["C08"] = (lambda tier="quick", seed=0: _c08_before_process(tier, seed) + _c08_process(tier, seed))
